@@ -1063,6 +1063,26 @@ func TestC12RoundTrip(t *testing.T) {
 			ev.Violation(t, sig, "%s; trace=%v", fmt.Sprintf(format, args...), trace)
 		}
 
+		if rapid.IntRange(0, 3).Draw(t, "leftover") == 0 {
+			// leftovers of an earlier creation of the same checkpoint that was killed before its metadata file was written
+			// (chunk files exist, no metadata), made with other chunking parameters: the creation below must not be
+			// affected by them
+			cs0 := rapid.SampledFrom([]uint64{1 << 20, cs*4 + 100, cs/2 + 1, 64}).Draw(t, "leftoverChunkSize")
+			th0 := rapid.SampledFrom(threadCounts).Draw(t, "leftoverThreads")
+			if _, err := makeCheckpoint(filepath.Join(f.dir, "cp"), f.src, f.root, cs0, th0); err == nil {
+				removed := false
+				_ = filepath.Walk(filepath.Join(f.dir, "cp"), func(p string, fi os.FileInfo, err error) error {
+					if err == nil && !fi.IsDir() && fi.Name() == "meta" {
+						removed = os.Remove(p) == nil
+					}
+					return nil
+				})
+				if removed {
+					rec.Label("leftover-chunks-of-interrupted-creation")
+					trace = append(trace, fmt.Sprintf("leftover chunk files of an interrupted creation with cs=%d threads=%d", cs0, th0))
+				}
+			}
+		}
 		cp, err := makeCheckpoint(filepath.Join(f.dir, "cp"), f.src, f.root, cs, threads)
 		if err != nil {
 			fail("create-checkpoint-failed", "CreateCheckpoint/GetCheckpointChunk: %v", err)
